@@ -273,6 +273,9 @@ def normalize(model):
     nsw = lower_switches(model)
     if nsw:
         notes.append("%d switch statement(s) lowered to if / else-if chains" % nsw)
+    ntr = ternary_returns_to_if(model, known)
+    if ntr:
+        notes.append("%d ternary return(s) with a helper call in an arm rewritten as if / else" % ntr)
     nsc = split_small_struct_copies(model)
     if nsc:
         notes.append("%d whole-record copies of small records split into member stores" % nsc)
@@ -1212,6 +1215,42 @@ def split_small_struct_copies(model):
                             continue
                 out.append(st)
             blk["inner"] = out
+    return n
+
+
+def ternary_returns_to_if(model, known):
+    """`return c ? A : B;` where an arm calls a helper that could be inlined: `if (c) return A; else return B;` (the helper's
+    body is then spliced into the arm)."""
+    n = 0
+    for f in model.funcs.values():
+        rel = model.rel(f.file) or ""
+        if not rel.startswith(("src/", "include/")) or f.body is None:
+            continue
+        for blk in walk(f.body):
+            if blk["kind"] != "CompoundStmt":
+                continue
+            st = blk.get("inner") or []
+            for i, s_ in enumerate(st):
+                if s_["kind"] != "ReturnStmt" or not kids(s_):
+                    continue
+                e = strip(kids(s_)[0], casts=True)
+                if e["kind"] != "ConditionalOperator" or not _pure_expr(kids(e)[0]):
+                    continue
+                def helper_call(arm):
+                    for y in walk(arm):
+                        if y["kind"] == "CallExpr" and callee_ref(y):
+                            g = model.funcs.get(model.resolve(f.unit, callee_ref(y)))
+                            if g is not None and g.static and g.name not in known:
+                                return True
+                    return False
+                if not (helper_call(kids(e)[1]) or helper_call(kids(e)[2])):
+                    continue
+                def ret(v_):
+                    r_ = dict(s_)
+                    r_["inner"] = [v_]
+                    return _mk("CompoundStmt", [r_], file=s_.get("file"), line=s_.get("line"))
+                st[i] = _mk("IfStmt", [kids(e)[0], ret(kids(e)[1]), ret(kids(e)[2])], file=s_.get("file"), line=s_.get("line"), col=s_.get("col"))
+                n += 1
     return n
 
 
